@@ -6,6 +6,34 @@ import os
 VERIF = os.path.dirname(os.path.dirname(os.path.abspath(__file__)))
 
 CLAIMED = {
+    "C02": dict(
+        category="model_checking",
+        technique="one z3 query per reported path (symbolic call stack and activation ids constrained to the reported block sequence) + z3 direct-check exploration for 'excluded at a block'",
+        text="Every path returned by the nine detectors on each family program is checked by a z3 query that asks for a run of the control-flow semantics producing exactly that block sequence (start at the entry, call-stack discipline, terminating end, no block twice per activation); unsat = not a genuine path. Per block and detector field a direct-check exploration decides exclusion. Duplicates and renderings are compared on the real objects as a by-product.",
+        note="bounded by program family, unrolling 2, call depth 8 for the direct-check runs (deeper = inconclusive, never an alarm)",
+        design_ref="DESIGN.md section 4 C02", engine="G+S",
+    ),
+    "C04": dict(
+        category="model_checking",
+        technique="z3 one-step induction over a symbolic pc / return address; z3 fixedpoint (Datalog) reachability; relation equality over symbolic block ids",
+        text="For every control layout up to the stated size (bounded-exhaustive) and the repo corpus: one inductive step from an arbitrary reachable state with an arbitrary valid return address must stay inside tealer's graph (unsat of the negation covers executions of any length); retained == reachable is decided by z3's fixedpoint engine (complete for the finite graph); successor/predecessor mirroring and bz/bnz order as relation queries.",
+        note="data is ignored (every branch outcome possible), which over-approximates real executions; assembler-valid structured programs only",
+        design_ref="DESIGN.md section 4 C04", engine="G",
+    ),
+    "C05": dict(
+        category="model_checking",
+        technique="z3 fixedpoint reachability per subroutine entry; call-site / return-point / caller tables compared with the control-flow semantics",
+        text="For all call matrices over <= 2 subroutines in 5 layouts, slices for 3, structured patterns for up to 6, and all control layouts with calls: subroutine names, membership (call-free reachability decided by z3's fixedpoint engine), exits, called subroutine and return point of every call site, caller/return-point tables of Subroutine and Function, call-graph edges.",
+        note="DOT text of the call graph file outside (C18); a bz/bnz-last block not being an exit is the listed finding KF-C06-last-branch-fallthrough",
+        design_ref="DESIGN.md section 4 C05", engine="G",
+    ),
+    "C20": dict(
+        category="model_checking",
+        technique="z3 fixedpoint reachability (label -> instruction, instruction -> match) under two edge relations; reported matches and covered set must lie between the induced bounds",
+        text="For every layout program, every retained label and `*`, and patterns of 1-4 instructions drawn from the program (chains, non-chains, overlapping, absent): reported matches are sound w.r.t. the union of both readings of a callsub and complete w.r.t. call-free reachability; each match lists the chain in order; covered lies between the corresponding path sets.",
+        note="pattern texts taken verbatim from the program; occurrences reachable only through a call are counted, not demanded",
+        design_ref="DESIGN.md section 4 C20", engine="G",
+    ),
     "C01": dict(
         category="translation_validation",
         technique="z3 existence query per accepting path of each program ('approved with the dangerous value'), model replayed, real run_detectors() must report",
@@ -50,7 +78,7 @@ CLAIMED = {
     ),
 }
 
-NOT_YET = {'C02': 'check under construction in this build round (see DESIGN.md section 9); not claimed yet', 'C04': 'check under construction in this build round (see DESIGN.md section 9); not claimed yet', 'C05': 'check under construction in this build round (see DESIGN.md section 9); not claimed yet', 'C10': 'check under construction in this build round (see DESIGN.md section 9); not claimed yet', 'C11': 'check under construction in this build round (see DESIGN.md section 9); not claimed yet', 'C12': 'check under construction in this build round (see DESIGN.md section 9); not claimed yet', 'C13': 'check under construction in this build round (see DESIGN.md section 9); not claimed yet', 'C14': 'check under construction in this build round (see DESIGN.md section 9); not claimed yet', 'C15': 'check under construction in this build round (see DESIGN.md section 9); not claimed yet', 'C16': 'check under construction in this build round (see DESIGN.md section 9); not claimed yet', 'C17': 'check under construction in this build round (see DESIGN.md section 9); not claimed yet', 'C19': 'check under construction in this build round (see DESIGN.md section 9); not claimed yet', 'C20': 'check under construction in this build round (see DESIGN.md section 9); not claimed yet', 'C18': 'relates DOT/JSON text renderings to internal objects: no run-time input, constant or schedule for a solver to range over; int->str/re/file output are beyond CrossHair (measured); reading files back would be output testing, another technique'}
+NOT_YET = {'C10': 'check under construction in this build round (see DESIGN.md section 9); not claimed yet', 'C11': 'check under construction in this build round (see DESIGN.md section 9); not claimed yet', 'C12': 'check under construction in this build round (see DESIGN.md section 9); not claimed yet', 'C13': 'check under construction in this build round (see DESIGN.md section 9); not claimed yet', 'C14': 'check under construction in this build round (see DESIGN.md section 9); not claimed yet', 'C15': 'check under construction in this build round (see DESIGN.md section 9); not claimed yet', 'C16': 'check under construction in this build round (see DESIGN.md section 9); not claimed yet', 'C17': 'check under construction in this build round (see DESIGN.md section 9); not claimed yet', 'C19': 'check under construction in this build round (see DESIGN.md section 9); not claimed yet', 'C18': 'relates DOT/JSON text renderings to internal objects: no run-time input, constant or schedule for a solver to range over; int->str/re/file output are beyond CrossHair (measured); reading files back would be output testing, another technique'}
 
 
 def main() -> None:
